@@ -55,14 +55,16 @@ def tnToJson : (d : Nat) → TN d → Json
 
 def parseYCoord (j : Json) : Except String YCoord :=
   match j with
-  | Json.arr a => do
-    let l ← a.toList.mapM (·.getInt?)
-    pure (YCoord.tup l)
+  | Json.arr a =>
+    match a.toList.mapM (·.getInt?) with
+    | .ok l => pure (YCoord.tup l)
+    | .error _ => pure (YCoord.other j.compress)     -- e.g. the shape ((2, 2), 2) of a rank flattened twice
   | _ => do pure (YCoord.int (← j.getInt?))
 
 def yCoordToJson : YCoord → Json
   | .int i => jInt i
   | .tup l => jInts l
+  | .other s => Json.str s
 
 def parseTY : (d : Nat) → Json → Except String (TY d)
   | 0, j => pVal j
@@ -187,6 +189,9 @@ def handleFromU (j : Json) : Except String Verdict := do
       (if !isAll && !anyEntry (· == dflt) (d + 1) nest then ["dense"] else []) ++
       (if !isAll && hasDefaultSub dflt (d + 1) nest then ["allDefaultSub"] else []) ++
       (if mUnc.isNone then ["uncompressRaises"] else []) ++
+      (match j.getObjVal? "fmt" with
+       | .ok (Json.arr a) => if a.size > 0 then ["formatU"] else []
+       | _ => []) ++
       [s!"depth{d + 1}", kind]
     pure { agree, spec := cl.all (·.2), why := clauses cl, tags,
            model := Json.mkObj [("tree", tnToJson (d + 1) mTree), ("shape", jList (mShape.map jNat)),
@@ -237,6 +242,14 @@ def handleYaml (j : Json) : Except String Verdict := do
   let iLoaded ← optField impl "loaded" (parseLoaded d)
   let iEq ← (← field impl "eq").getBool?
   let iEqRev ← (← field impl "eq_rev").getBool?
+  -- the deprecated loader Tensor(yamlfile=...) (tensors only)
+  let iCtor ← optField impl "ctor" (fun c => do
+    let l ← parseLoaded d c
+    let e ← (← field c "eq").getBool?
+    pure (l, e))
+  let iLoadedDflt ← optField impl "loaded_dflt" pVal
+  let oFShape := (orig.getObjVal? "fshape").toOption
+  let iFShape := (impl.getObjVal? "loaded_fshape").toOption
   -- model
   let mDict := fiber2dict d o.tree
   let mRt := dict2fiber d mDict
@@ -260,9 +273,18 @@ def handleYaml (j : Json) : Except String Verdict := do
     | some (l, ldflt) => (decide (l.rankIds = o.rankIds) && eqB ldflt dflt d l.tree o.tree,
                           decide (o.rankIds = l.rankIds) && eqB dflt ldflt d o.tree l.tree)
     | none => (false, false)
+  let mCtor : Option (Loaded d × Bool) :=
+    if isTensor then
+      (tensorCtorRoundtrip (0 : Int) rep).map (fun r =>
+        ({ tree := r.root, rankIds := r.rankIds, shape := r.shape, name := r.name },
+         decide (r.rankIds = o.rankIds) && eqB r.dflt dflt d r.root o.tree && eqB dflt r.dflt d o.tree r.root))
+    else none
+  let mLoadedDflt : Option Int := if isTensor && d ≥ 1 then mLoadedD.map (·.2) else none
   let agree := optBeq (yDictBeq d) iDict (some mDict) && optBeq (treeBeq d) iRt mRt &&
                (iDictEq == mDictEq) && optBeq (loadedBeq d) iLoaded mLoaded &&
-               (iEq == mEq) && (iEqRev == mEqRev)
+               (iEq == mEq) && (iEqRev == mEqRev) &&
+               optBeq (fun a b => loadedBeq d a.1 b.1 && a.2 == b.2) iCtor mCtor &&
+               (iLoadedDflt == mLoadedDflt)
   -- the property on the implementation's observation
   let cl := [("dict-roundtrip-equal", iDictEq)] ++
     (match iLoaded with
@@ -270,7 +292,17 @@ def handleYaml (j : Json) : Except String Verdict := do
      | some l => [("yaml-equal", iEq && iEqRev),
                   ("rank-ids", decide (l.rankIds = o.rankIds)),
                   ("shape", decide (l.shape = o.shape)),
-                  ("name", decide (l.name = o.name))])
+                  ("name", decide (l.name = o.name))]) ++
+    -- a fiber's shape (as getShape() reports it) survives the round trip
+    (if !isTensor && iLoaded.isSome then [("fiber-shape", oFShape.isSome && oFShape == iFShape)] else []) ++
+    -- the deprecated loader, rank 0 included
+    (if isTensor then
+      (match iCtor with
+       | none => [("ctor-loads", false)]
+       | some (l, e) => [("ctor-equal", e),
+                         ("ctor-attrs", decide (l.rankIds = o.rankIds) && decide (l.shape = o.shape) &&
+                                        decide (l.name = o.name))])
+     else [])
   let tags :=
     (if d == 0 then ["rank0"] else []) ++
     (if d > 0 && !(content dflt d o.tree).isEmpty then ["stored"] else []) ++
